@@ -154,6 +154,10 @@ type path struct {
 	q0, qs0, qu0, qk0 int
 	t0                time.Duration
 
+	started   time.Time
+	known     map[*smt.Term]bool // conditions asserted on this path (and their negations)
+	knownHits int
+
 	doms     map[string]*domain // finite value sets of "simple" variables (cheap decisions)
 	termVars map[int][]string
 	cheap    int
@@ -231,7 +235,7 @@ func newPath(job *Job) *path {
 		job: job, ctx: smt.NewCtx(), harness: job.Harness,
 		nameCount: map[string]int{}, smtNames: map[string]string{}, reach: map[string]bool{}, asserts: map[string]int{},
 		funcs: map[*ssa.Function]bool{}, stubs: map[string]bool{}, tags: map[string]string{},
-		budget: job.Budget,
+		budget: job.Budget, started: time.Now(),
 	}
 	if p.budget == 0 {
 		p.budget = 50_000_000
@@ -366,6 +370,13 @@ func (p *path) assertPC(t *smt.Term) {
 	}
 	p.noteConstraint(t)
 	p.pc = append(p.pc, t)
+	// what has been asserted holds for the rest of the path: a later branch on the
+	// same condition (a loop that re-tests it) needs neither a decision nor a query
+	if p.known == nil {
+		p.known = map[*smt.Term]bool{}
+	}
+	p.known[t] = true
+	p.known[p.ctx.BNot(t)] = false
 	if p.mdl != nil && smt.Eval(t, p.mdl, map[int]uint64{}) == 0 {
 		p.mdl = nil
 	}
@@ -580,6 +591,10 @@ func (p *path) branch(t *smt.Term) bool {
 	if t.IsFalse() {
 		return false
 	}
+	if v, ok := p.known[t]; ok {
+		p.knownHits++
+		return v
+	}
 	return p.decide([]*smt.Term{t, p.ctx.BNot(t)}, nil) == 0
 }
 
@@ -598,6 +613,11 @@ const defaultConcretizeCap = 16
 // concretize turns a symbolic integer into a concrete one by forking over its
 // feasible values (at most cap of them; more is reported as inconclusive).
 func (p *path) concretize(s sym, why string) uint64 {
+	return p.concretizeCap(s, why, 0)
+}
+
+// concretizeCap is concretize with an explicit cap on the number of values (0 = the default / job parameter).
+func (p *path) concretizeCap(s sym, why string, capOverride int) uint64 {
 	if s.t.IsConst() {
 		return s.t.Val
 	}
@@ -610,6 +630,9 @@ func (p *path) concretize(s sym, why string) uint64 {
 	cap := defaultConcretizeCap
 	if c, ok := p.job.Params["concretize_cap"]; ok {
 		cap = c
+	}
+	if capOverride > 0 {
+		cap = capOverride
 	}
 	var vals []uint64
 	excl := p.ctx.Bool(true)
